@@ -46,7 +46,14 @@ pub fn diff(a: &Leaves, b: &Leaves, scale: f64) -> Option<String> {
     }
     b.keys().find(|p| !a.contains_key(*p)).map(|p| format!("{}: absent vs {:?}", p, b[p]))
 }
-/// does the path name a figure that may depend on k_exp (step B, the k_exp-weighted exported term, renewable shares)?
-pub fn k_dependent(p: &str) -> bool {
-    p.starts_with("rer") || p.contains("we.b.") || p.contains("we.b_by_srv.") || p.contains("we.exp.")
+/// does the path name a figure that C03 says does not depend on k_exp: a final-energy flow (used, produced, delivered, exported)
+/// or a part of the step A result (weighted delivered energy, step A weighted exported energy, step A, step A by service)?
+pub fn k_independent(p: &str) -> bool {
+    let we = p.contains(".we.");
+    (!we && [".used.", ".prod.", ".del.", ".exp."].iter().any(|s| p.contains(s)))
+        || [".we.a.", ".we.a_by_srv.", ".we.del.", ".we.exp_a."].iter().any(|s| p.contains(s))
+}
+/// a per-m2 figure C04 speaks of: everything in the balance except shares / factors that a later version might add to it
+pub fn per_area(p: &str) -> bool {
+    !(p.contains("rer") || p.contains("k_exp") || p.contains("f_match"))
 }
